@@ -45,7 +45,9 @@ ASSUMPTIONS = ['Dependency objects are truthy; NotFoundDependency.found() is Fal
                'loops over self.names are analysed with 0/1 iterations (the loop body is the unit)']
 TECHNIQUE = ('decision tables by path enumeration over canonical atoms (locals named by their reaching definition on the path), worlds of the atoms vs a '
              'reference policy with symbolic comparison of outcomes/effects; CFG reachability/dominance incl. exception edges; interprocedural guard '
-             '(must-pass) analysis over the Resolver call graph; who-may-call; def-use origin flows.  No repository code is interpreted on values.')
+             '(must-pass) analysis over the Resolver call graph incl. constant dispatch tables; who-may-call; def-use origin flows.  Before paths are taken a private '
+             'copy of each function is put into one spelling (extracted helpers expanded, call arguments bound by signature, text templates, De Morgan/'
+             'bool returns, next()-search -> loop, membership/len/chained comparisons).  No repository code is interpreted on values.')
 
 
 # The vocabulary the reference is written in: the operations of the two classes as the design read them.  A method that is
@@ -75,9 +77,14 @@ def _fn(mod: Module, qn: str) -> T.Any:
         if len(_INLINED) > 200:
             _INLINED.clear()
         meths = mod.methods(cls)
-        new = S.inline_helpers(fn, meths, VOCAB[cls]) if any(m not in VOCAB[cls] for m in meths) else fn
-        _INLINED[key] = (mod, new)
+        new = S.inline_helpers(fn, meths, VOCAB[cls])          # (always a private copy)
+        _INLINED[key] = (mod, S.canonicalise(new, meths, cls))
     return _INLINED[key][1]
+
+
+def _opaque(sp: T.Any, cls: str) -> T.List[str]:
+    """calls on the path into helpers of the class that are neither part of the vocabulary nor could be expanded: what they do is not seen"""
+    return sorted({short(o, 60) for o, _, _ in sp.calls() if S.self_method_called(o) and S.self_method_called(o) not in VOCAB[cls]})
 
 
 def _truth(s: str) -> Atom:
@@ -146,7 +153,10 @@ def r1a(ctx: RuleCtx) -> None:
     def items(e: ast.AST) -> T.List[T.Tuple[str, str]]:
         """the candidates a list-valued expression contributes, in order (display, comprehension over self.names, +, list())"""
         if isinstance(e, (ast.List, ast.Tuple)):
-            return [one(x, None) for x in e.elts]
+            out: T.List[T.Tuple[str, str]] = []
+            for x in e.elts:
+                out.extend(items(x.value) if isinstance(x, ast.Starred) else [one(x, None)])
+            return out
         if isinstance(e, (ast.ListComp, ast.GeneratorExp)) and len(e.generators) == 1 and not e.generators[0].ifs \
                 and isinstance(e.generators[0].target, ast.Name):
             it = norm(e.generators[0].iter)
@@ -537,6 +547,8 @@ def r1f(ctx: RuleCtx) -> None:
             if isinstance(st, ast.Assign) and len(st.targets) == 1 and norm(r.sp.sym(st.targets[0], i)) == "ARG1['required']":
                 req_sets.add(repr(sorted(_atom_set(r.sp.sym(st.value, i), ast.And))))
     want_req = repr(sorted({repr(_truth("ARG1.get('required', True)")), repr(LAST)}))
+    if not req_sets:
+        raise Undecided(f"{qn}: no assignment to kwargs['required'] recognised in the candidate loop")
     ctx.require(req_sets == {want_req}, "kwargs['required'] = required and this is the last candidate", mod, qn, "kwargs['required']",
                 f"kwargs['required'] is set to {sorted(req_sets)}; reference {want_req}")
 
@@ -684,7 +696,7 @@ def r2a(ctx: RuleCtx) -> None:
     mod = ctx.repo.module(WRAP)
     qn = f'{R}._get_file_internal'
     fn = _fn(mod, qn)
-    url_atom = Atom('in', ("ARG1 + '_url'", 'self.wrap.values'))
+    url_atom = Atom('in', ("f'{ARG1}_url'", 'self.wrap.values'))
     n = 0
     seen: T.Set[str] = set()
     for sp in sympaths(fn):
@@ -712,6 +724,8 @@ def r2a(ctx: RuleCtx) -> None:
         if key in seen:
             continue
         seen.add(key)
+        if not ok and _opaque(sp, R):
+            raise Undecided(f'{qn}: no verification seen on `{short(sp.path.describe(), 160)}`, but {_opaque(sp, R)} could not be looked into')
         branch = {True: 'URL branch', False: 'packagefiles branch', None: 'no <what>_url test on the path'}[url]
         ctx.require(ok, f'{branch}: returned {short(vt, 60)} verified by {how}', mod, qn, sp.path.events[-1].node,
                     f'{branch}: the path `{short(sp.path.describe(), 200)}` returns {short(vt, 80)} without '
@@ -723,8 +737,8 @@ def r2b(ctx: RuleCtx) -> None:
     mod = ctx.repo.module(WRAP)
     qn = f'{R}.check_hash'
     fn = _fn(mod, qn)
-    DIG, EXPS = 'self.hash_file(ARG2)', ("self.wrap.get(ARG1 + '_hash').lower()", "self.wrap.get(ARG1 + '_hash')")
-    recorded = Atom('in', ("ARG1 + '_hash'", 'self.wrap.values'))
+    DIG, EXPS = 'self.hash_file(ARG2)', ("self.wrap.get(f'{ARG1}_hash').lower()", "self.wrap.get(f'{ARG1}_hash')")
+    recorded = Atom('in', ("f'{ARG1}_hash'", 'self.wrap.values'))
     n_acc = n_rej = 0
     seen: T.Set[str] = set()
     for sp in sympaths(fn):
@@ -739,6 +753,8 @@ def r2b(ctx: RuleCtx) -> None:
             why = 'sha256(file at path) == recorded hash'
         elif conds.get(recorded) is False and conds.get(_truth('ARG3')) is False:
             why = 'no hash recorded and none required'
+        if why is None and _opaque(sp, R):
+            raise Undecided(f'{qn}: accepting path `{short(sp.path.describe(), 160)}` goes through {_opaque(sp, R)}, which could not be looked into')
         key = f'{why}|{"" if why else sp.path.describe()}'
         if key in seen:
             continue
@@ -834,7 +850,7 @@ def r2c(ctx: RuleCtx) -> None:
     mod = ctx.repo.module(WRAP)
     qn = f'{R}._download'
     fn = _fn(mod, qn)
-    EXPS = {"self.wrap.get(ARG1 + '_hash').lower()", "self.wrap.get(ARG1 + '_hash')"}
+    EXPS = {"self.wrap.get(f'{ARG1}_hash').lower()", "self.wrap.get(f'{ARG1}_hash')"}
     n_pub = n_bad = 0
     seen: T.Set[str] = set()
     for sp in sympaths(fn):
@@ -859,6 +875,8 @@ def r2c(ctx: RuleCtx) -> None:
                             and dig in a.args[1:] and (set(a.args[1:]) - {dig}) <= EXPS and len(set(a.args[1:])) == 2]
                     if not good:
                         problem = f'reaches {short(o)} without `digest of that download == <what>_hash` being established on the path'
+            if problem and _opaque(sp, R):
+                raise Undecided(f'{qn}: {problem}; but {_opaque(sp, R)} on that path could not be looked into')
             key = f'pub|{problem}|{short(sp.path.describe(), 160) if problem else ""}'
             if key in seen:
                 continue
@@ -1037,6 +1055,40 @@ class _Net:
         e = n.expr()
         return e is not None and any(isinstance(c, ast.Call) and self.guarding(S.self_method_called(c) or '') for c in walk_no_nested(e))
 
+    def dispatch_targets(self, c: ast.Call, fn: ast.AST) -> T.Optional[T.List[ast.AST]]:
+        """`T[k](..)`, `T.get(k)(..)`, or `f = T[k] / T.get(k[, d])` ... `f(..)` with T a dict display (local, class-level or module-level
+        constant): the values of T (and the default d)"""
+        f: ast.AST = c.func
+        if isinstance(f, ast.Name):
+            defs = _assigned(fn, f.id)
+            if len(defs) != 1 or defs[0] is None:
+                return None
+            f = defs[0]
+        extra: T.List[ast.AST] = []
+        if isinstance(f, ast.Subscript):
+            tab: ast.AST = f.value
+        elif isinstance(f, ast.Call) and isinstance(f.func, ast.Attribute) and f.func.attr == 'get' and 1 <= len(f.args) <= 2:
+            tab = f.func.value
+            extra = [a for a in f.args[1:] if not (isinstance(a, ast.Constant) and a.value is None)]
+        else:
+            return None
+        disp: T.Optional[ast.AST] = None
+        if isinstance(tab, ast.Dict):
+            disp = tab
+        elif isinstance(tab, ast.Name):
+            defs = _assigned(fn, tab.id)
+            if len(defs) == 1 and isinstance(defs[0], ast.Dict):
+                disp = defs[0]
+            elif not defs and self.mod.has_assign(tab.id):
+                disp = self.mod.assign_value(tab.id)
+        elif isinstance(tab, ast.Attribute) and isinstance(tab.value, ast.Name) and tab.value.id in ('self', 'cls', R):
+            cls = self.mod.cls(R)
+            if self.mod.has_assign(tab.attr, cls):
+                disp = self.mod.assign_value(tab.attr, cls)
+        if not isinstance(disp, ast.Dict):
+            return None
+        return [v for v in disp.values if v is not None] + extra
+
     def sites(self, key: str, unguarded_only: bool, busy: T.FrozenSet[str] = frozenset()) -> T.Dict[T.Tuple[str, str], T.List[str]]:
         """primitive sites {(function, call text): call chain} reachable from the entry of `key`
         (all of them, or only those that can start before any guard completed)."""
@@ -1058,7 +1110,9 @@ class _Net:
             e = n.expr()
             if e is None:
                 continue
-            for c in walk_no_nested(e):
+            todo: T.List[ast.AST] = [c for c in walk_no_nested(e) if isinstance(c, ast.Call)]
+            while todo:
+                c = todo.pop()
                 if not isinstance(c, ast.Call):
                     continue
                 p = _primitive(c, fn)  # type: ignore[arg-type]
@@ -1066,12 +1120,21 @@ class _Net:
                     out.setdefault((key, f'{p}: {short(c, 90)}'), [key])
                     continue
                 m = S.self_method_called(c)
-                callee = None
+                callees: T.List[str] = []
                 if m and m != GUARD and m in self.methods:
-                    callee = 'self.' + m          # (a guarding callee is entered unguarded too: its own guard is inside)
+                    callees.append('self.' + m)   # (a guarding callee is entered unguarded too: its own guard is inside)
                 elif isinstance(c.func, ast.Name) and self.fn_of(c.func.id) is not None:
-                    callee = c.func.id
-                if callee:
+                    callees.append(c.func.id)
+                else:
+                    # a call through a constant dispatch table: every entry of the table may be the callee (finite declared domain)
+                    for v in self.dispatch_targets(c, fn) or []:  # type: ignore[arg-type]
+                        if isinstance(v, ast.Lambda):
+                            todo.extend(x for x in ast.walk(v.body) if isinstance(x, ast.Call))
+                        elif (attr_chain(v) or '').startswith('self.') and (attr_chain(v) or '')[5:] in self.methods:
+                            callees.append(attr_chain(v) or '')
+                        elif isinstance(v, ast.Name) and self.fn_of(v.id) is not None:
+                            callees.append(v.id)
+                for callee in callees:
                     for site, chain in self.sites(callee, unguarded_only, busy | {key}).items():
                         out.setdefault(site, [key] + chain)
         if not busy:
@@ -1227,32 +1290,69 @@ def r4(ctx: RuleCtx) -> None:
                     if S.self_method_called(c) in STEPS and id(c) not in leaves)
     if others:
         ctx.note(f'patch/diff steps in Resolver methods that _resolve does not reach (not part of the clause): {others}')
-    # every return of _resolve is gated by has_buildfile()
+    # every return of _resolve is gated by the build-file test.  The test is found by its role: a call of a function (closure of
+    # _resolve, method of Resolver, module function) that tests the existence of a file under self.dirname, or such a test written inline.
+    EXISTS = ('exists', 'isfile', 'is_file')
+
+    def gate_fn(c: ast.Call) -> T.Optional[T.Tuple[str, ast.AST]]:
+        m = S.self_method_called(c)
+        if m and m in meths:
+            return f'{R}.{m}', meths[m]
+        if isinstance(c.func, ast.Name):
+            for q in (f'{R}._resolve.{c.func.id}', c.func.id):
+                if mod.has_func(q):
+                    return q, mod.func(q)
+        return None
+
+    def is_gate(c: ast.Call) -> T.Optional[bool]:
+        """True: build-file test; False: something else; None: cannot tell"""
+        if call_method(c) in EXISTS:
+            subj = c.args[0] if c.args else (c.func.value if isinstance(c.func, ast.Attribute) else c)
+            if isinstance(subj, ast.Call) and len(subj.args) == 1 and not subj.keywords:
+                subj = subj.args[0]             # Path(x) / str(x)
+            # a file *under* the directory, not the directory itself
+            return attr_chain(subj) != 'self.dirname' and any(attr_chain(x) == 'self.dirname' for x in ast.walk(subj))
+        g = gate_fn(c)
+        if g is None:
+            return False
+        body = g[1]
+        if not any(isinstance(x, ast.Call) and call_method(x) in EXISTS for x in ast.walk(body)):
+            return False
+        reads = {attr_chain(x) for x in ast.walk(body) if isinstance(x, ast.Attribute)}
+        if 'self.dirname' in reads or any(attr_chain(x) == 'self.dirname' for a in list(c.args) + [k.value for k in c.keywords] for x in ast.walk(a)):
+            return True
+        return None
     tests: T.Dict[int, bool] = {}
+    unclear: T.List[str] = []
+    gates: T.Set[str] = set()
     for n in cfg.nodes:
-        if n.kind == 'test' and any(isinstance(c, ast.Call) and call_name(c) == 'has_buildfile' for c in walk_no_nested(n.expr())):  # type: ignore[arg-type]
-            a, pol = tables.canon(n.expr(), True)  # type: ignore[arg-type]
-            if a != _truth('has_buildfile()'):
-                raise Undecided(f'_resolve: build-file test {short(n.expr())} is not a plain (negated) has_buildfile()')
-            tests[n.id] = pol
-    ctx.floor('has_buildfile() tests in _resolve', len(tests), 2)
+        if n.kind != 'test':
+            continue
+        verdicts = {id(c): is_gate(c) for c in walk_no_nested(n.expr()) if isinstance(c, ast.Call)}  # type: ignore[arg-type]
+        if None in verdicts.values():
+            unclear.append(short(n.expr()))
+        if True not in verdicts.values():
+            continue
+        a, pol = tables.canon(n.expr(), True)  # type: ignore[arg-type]
+        e = _parse(a.args[0]) if a.kind == 'truth' else None
+        if not (isinstance(e, ast.Call) and is_gate(e)):
+            raise Undecided(f'_resolve: build-file test {short(n.expr())} is not a plain (negated) existence test')
+        tests[n.id] = pol
+        gates.add(a.args[0])
+    if not tests:
+        raise Undecided('_resolve: no test recognised as "the build file exists under self.dirname"')
+    ctx.floor('build-file tests in _resolve', len(tests), 2)
     live = cfg.reachable([cfg.entry], edge_ok=lambda a, b, lab: not (a.id in tests and lab == tests[a.id]), include_start=True)
     n_ret = 0
     for n in cfg.nodes:
         if n.kind == 'stmt' and isinstance(n.ast, ast.Return):
             n_ret += 1
-            ctx.require(n.id not in live, f'`{short(n.ast)}` only after has_buildfile() held', mod, qn, n.ast,
-                        f'`{short(n.ast)}` can be reached without has_buildfile() having been (re-)tested true: a directory without build file is accepted', n.ast)
+            if n.id in live and unclear:
+                raise Undecided(f'_resolve: `{short(n.ast)}` is not behind a recognised build-file test, but {unclear} could be one')
+            ctx.require(n.id not in live, f'`{short(n.ast)}` only after {sorted(gates)} held', mod, qn, n.ast,
+                        f'`{short(n.ast)}` can be reached on a path on which none of the build-file tests {sorted(gates)} was taken with the outcome "exists": '
+                        'a directory without build file is accepted', n.ast)
     ctx.floor('returns of _resolve', n_ret, 2)
-    # the build-file test looks into the directory that the handler removes
-    hb = [f for q, f in mod.funcs().items() if q == f'{R}._resolve.has_buildfile']
-    if len(hb) != 1:
-        raise Undecided('_resolve.has_buildfile is not a local function')
-    reads = {attr_chain(x) for x in ast.walk(hb[0]) if isinstance(x, ast.Attribute)}
-    if not any(call_method(c) in ('exists', 'isfile', 'is_file') for c in calls_in(hb[0])):
-        raise Undecided('_resolve.has_buildfile: no existence test recognised')
-    ctx.require('self.dirname' in reads, 'has_buildfile() tests a file under self.dirname',
-                mod, qn + '.has_buildfile', hb[0], 'has_buildfile() does not look for the build file under self.dirname')
     if ctx.thorough:
         ext = []
         for rel in ctx.repo.py_files('mesonbuild'):
